@@ -13,8 +13,10 @@ of the code:
 * `cbin i`         function `i` is entered (by its goroutine, or inline when `len(fns) = 1`)
 * `cbout i r`      function `i` returns `r` (the harness scripts the outcome)
 * `decCS i`        the worker's decrement section ccall.go:30-36 (`running--`, first-error rule, broadcast)
-* `wake`/`ctxTake` the `select` of the wait loop took `<-waitCh` / `<-ctx.Done()` (ccall.go:58-62)
-* `recheckCS`      the re-check section ccall.go:66-70 and the local test of ccall.go:71
+* `ctxTake`        the `select` of the wait loop took `<-ctx.Done()` (ccall.go:58-62)
+* `recheckCS`      the `select` took `<-waitCh` (enabled iff the channel is closed; the decision touches
+                   no shared state and is folded into the section it leads to, as in the csync models),
+                   the re-check section ccall.go:66-70 and the local test of ccall.go:71
 * `deferCancel`    the deferred `subCtxCancel()` (ccall.go:19)
 * `ret r`          the call returned `r`
 * `env cancel`     the harness cancels the caller's context
@@ -74,7 +76,6 @@ inductive PC where
   | invoked              -- invoked, nothing done yet
   | inline               -- len(fns) = 1: inside `fns[0](subCtx)`
   | sel (ch : Nat)       -- blocked in the select on wait channel `ch`
-  | woke                 -- select took `<-waitCh`; re-check section pending
   | exiting (r : Res)    -- return value decided; deferred subCtxCancel pending
   | retReady (r : Res)   -- about to return `r`
   | finished (r : Res)   -- returned `r`
@@ -110,7 +111,6 @@ inductive Ev where
   | cbin (i : Nat)
   | cbout (i : Nat) (r : Res)
   | decCS (i : Nat)
-  | wake
   | ctxTake
   | recheckCS
   | deferCancel
@@ -206,20 +206,18 @@ def step (s : St) : Ev → Option St
       some { s with ws := s.ws.set i (.done r), running := s.running - 1,
                     exitErr := recordErr s.exitErr r, bc := s.bc.broadcast }
     | _ => none
-  | .wake =>
-    match s.pc with
-    | .sel ch => if s.bc.closed ch then some { s with pc := .woke } else none
-    | _ => none
   | .ctxTake =>
     match s.pc with
     | .sel _ => if s.ctxC then some { s with pc := .exiting .canceled } else none
     | _ => none
   | .recheckCS =>
     match s.pc with
-    | .woke =>
-      some { s with bc := s.bc.getWaitCh.1,
-                    pc := if s.running = 0 ∨ s.exitErr.isReal then .exiting s.exitErr
-                          else .sel s.bc.getWaitCh.2 }
+    | .sel ch =>
+      if s.bc.closed ch then
+        some { s with bc := s.bc.getWaitCh.1,
+                      pc := if s.running = 0 ∨ s.exitErr.isReal then .exiting s.exitErr
+                            else .sel s.bc.getWaitCh.2 }
+      else none
     | _ => none
   | .deferCancel =>
     match s.pc with
@@ -239,7 +237,7 @@ def step (s : St) : Ev → Option St
        W.all (fun i => s.ws[i]? == some .running && !s.subCancelled) then some s else none
 
 def cands (s : St) : List Ev :=
-  [.enter, .wake, .ctxTake, .recheckCS, .deferCancel] ++ (List.range s.ws.length).map .decCS
+  [.enter, .ctxTake, .recheckCS, .deferCancel] ++ (List.range s.ws.length).map .decCS
 
 def model : OLTS St Ev Obs where
   init := {}
